@@ -715,6 +715,8 @@ evrpc_schedule_request(struct evhttp_connection *connection,
 	return (0);
 
 error:
+	if (req != NULL)	/* never handed to a connection: still ours */
+		evhttp_request_free(req);
 	memset(&status, 0, sizeof(status));
 	status.error = EVRPC_STATUS_ERR_UNSTARTED;
 	(*ctx->cb)(&status, ctx->request, ctx->reply, ctx->cb_arg);
@@ -733,12 +735,16 @@ evrpc_schedule_request_closure(void *arg, enum EVRPC_HOOK_RESULT hook_res)
 	char *uri = NULL;
 	int res = 0;
 
-	if (hook_res == EVRPC_TERMINATE)
+	if (hook_res == EVRPC_TERMINATE) {
+		evhttp_request_free(req);
 		goto error;
+	}
 
 	uri = evrpc_construct_uri(ctx->name);
-	if (uri == NULL)
+	if (uri == NULL) {
+		evhttp_request_free(req);
 		goto error;
+	}
 
 	if (pool->timeout > 0) {
 		/*
